@@ -3,6 +3,22 @@
 // keeps C20's alarms sound (every alternative answer of every choice point must still satisfy
 // the same contract).
 
+/// an element type with non-commutative, non-associative + and - (free terms)
+#[derive(Clone, Debug, PartialEq)]
+pub struct Word(pub String);
+impl core::ops::Add for Word {
+    type Output = Word;
+    fn add(self, o: Word) -> Word {
+        Word(format!("({}+{})", self.0, o.0))
+    }
+}
+impl core::ops::Sub for Word {
+    type Output = Word;
+    fn sub(self, o: Word) -> Word {
+        Word(format!("({}-{})", self.0, o.0))
+    }
+}
+
 pub struct C07 {
     /// all arrays of length <= 4 over values <= 3
     pub arrays: Vec<Vec<usize>>,
@@ -611,6 +627,18 @@ impl C07 {
                     }
                 }
                 ensure(Array::<K, String>::get_range(&x, ..) == &sv[..], || "get_range<String>".into())?;
+                // element-wise + and - at an element type whose operations do not commute: x[i] (op) y[i], in this order
+                if BACKEND_NAME == "vec" && v.len() == idx.len() {
+                    use open_hypergraphs::array::vec::VecArray;
+                    let xs: Vec<Word> = v.iter().map(|k| Word(format!("a{}", k))).collect();
+                    let ys: Vec<Word> = idx.iter().map(|k| Word(format!("b{}", k))).collect();
+                    let sum = VecArray(xs.clone()) + VecArray(ys.clone());
+                    let e: Vec<Word> = xs.iter().zip(ys.iter()).map(|(p, q)| Word(format!("({}+{})", p.0, q.0))).collect();
+                    ensure(sum.0 == e, || format!("VecArray<Word> + VecArray<Word> = {:?}, expected {:?}", sum.0, e))?;
+                    let dif = VecArray(xs.clone()) - VecArray(ys.clone());
+                    let e: Vec<Word> = xs.iter().zip(ys.iter()).map(|(p, q)| Word(format!("({}-{})", p.0, q.0))).collect();
+                    ensure(dif.0 == e, || format!("VecArray<Word> - VecArray<Word> = {:?}, expected {:?}", dif.0, e))?;
+                }
                 Ok(true)
             }
             "long_arrays" => {
